@@ -48,8 +48,6 @@ def main():
     finally:
         subprocess.call(["git", "-C", "/repo", "worktree", "remove", "--force", wt])
         shutil.rmtree(wt, ignore_errors=True)
-        # evidence and replays written by the mutant run are not evidence of the real tree
-        subprocess.call(["git", "-C", os.path.dirname(os.path.dirname(os.path.abspath(__file__))), "checkout", "-q", "--", "evidence"])
     return 0
 
 
